@@ -1,5 +1,583 @@
-import Blots.Model.Builtins
+import Blots.Lemmas.Emit
+/-
+  C05 — function outputs are portable: emitted source reloads to an equivalent function.
+
+  The emitter (`exprSrc sc` = `expr_to_source_with_scope`, `svToSource` =
+  `serializable_value_to_source`, `valueToSV` / `capturedToSV` = `SerializableValue::from_value`
+  / `from_captured_value`) produces TEXT; the parser is not modelled at character level.  The
+  argument is therefore organised at the AST level (definitions and lemmas in
+  `Lemmas/Emit.lean`) with an explicit, small interface to text:
+
+    `pf : ParseFn`   (`parse_function_source`: text ↦ parameters and `expr_to_source` of the body)
+    `pb : ParseBody` (text of a body ↦ its tree),
+
+  and every use of the interface is a visible hypothesis of the form "the parser reads the
+  printed form of this tree back to this tree" — the C07 / C10 parse-back property, validated
+  on the real parser by the harness (`props/c05.rs`, `props/c07.rs`, `props/c10.rs`).
+
+  PROVED here, for all inputs (no bound):
+   (A) `svToExpr` = the expression a literal denotes; `substExpr` = inlining at the AST level;
+       `emit_is_substitution_partial`: the emitted text IS the plain print of the substituted
+       tree, for scopes whose literals carry no protective parentheses (`ScopeBare`); the
+       unrestricted textual equality is FALSE (`emit_is_substitution_statement_false`: the two
+       texts differ by redundant parentheses for negative numbers, NaN, two-quote strings,
+       functions).
+   (B) every literal evaluates to the captured value, in every state
+       (`literal_evaluates_to_value`): negative numbers incl. `-0.0`, `-inf` (bit-level),
+       `+inf`, NaN (to whatever NaN `0/0` gives), strings with both quote kinds, nested lists
+       and records (static and computed keys), built-in names.
+   (C) scope bookkeeping: parameters and do-block locals are never inlined
+       (`subst_respects_parameters`, `subst_respects_do_locals`, the old defect as an example).
+   (D) the substitution lemma (`subst_lemma_partial`) on the fragment `Emit.frag`, and the
+       counterexample that shows why an assignment that is NOT a direct do-block statement
+       must be excluded (`nested_assignment_breaks_reload` — a GENUINE DEFECT of the emitter,
+       confirmed on the real binary: `x = 5; f = () => [x = 1, x]`).
+   (E) reload: structure of the reloaded function (`reload_structure`), `extend_lambda_body`
+       (`extendLambdaBody_graft`), equivalence of calls (`reload_equiv_partial`), fixed point
+       of re-emission (`re_emit_fixed_point`, `re_emit_same_text`).
+
+  NOT proved: the full statements `subst_lemma_statement` / `reload_equiv_statement` (bodies
+  with calls, lambda expressions, `output`; captured closures): they need a logical relation
+  between closures ("equal up to inlining of their captured scopes") instead of equality of
+  values; and the character-level parse-back itself (interface hypotheses).
+-/
 namespace Blots.C05
-/-- placeholder until the C05 theorem file lands (being written) -/
+open Blots.Emit Blots.PrintL
+
+/-! ### (A) the emitted text is the print of the substituted tree -/
+
+/-- `expr_to_source` is `expr_to_source_with_scope` with nothing to inline -/
 theorem exprToSource_is_empty_scope (e : Expr) : exprToSource e = exprSrc [] e := rfl
+
+/-- with nothing to inline the AST-level substitution changes no identifier -/
+theorem subst_empty_scope_ident (pb : String → Option Expr) (n : String) :
+    substExpr pb [] (.ident n) = .ident n := rfl
+
+/-- the text of a literal without protective parentheses is the plain print of the expression
+    it denotes (at every nesting level) -/
+theorem literal_text_is_printed_literal (pb : String → Option Expr) (v : SV) (h : bare v = true) :
+    svToSource v = exprSrc [] (svToExpr pb v) := svToSource_bare pb v h
+
+/-- the negative-number, NaN and two-quote literals are the parenthesised prints of what they
+    denote (`(-a)`, `(a + b + …)`), NaN up to blanks (`(0/0)` against `0 / 0`) -/
+theorem protected_literal_texts (pb : String → Option Expr) (x : F64) (s : String) :
+    (x.isNaN = false → x.neg = true →
+      svToSource (.num x) = "(" ++ exprSrc [] (svToExpr pb (.num x)) ++ ")") ∧
+    (x.isNaN = true → svToSource (.num x) = "(0/0)" ∧
+      svToExpr pb (.num x) = .bin .div (.num F64.zero) (.num F64.zero)) ∧
+    (bothQuotes s = true →
+      svToSource (.str s) = "(" ++ " + ".intercalate ((quotedPieces s.toList).map litOf) ++ ")" ∧
+      svToExpr pb (.str s) = strChain (pieces s.toList)) := by
+  refine ⟨fun h1 h2 => ?_, fun h => ?_, fun h => ?_⟩
+  · have hnp := (atomHead_shape (.num x.negate) rfl).1 .prefix_
+    simp [svToSource, svToExpr, numToExpr, h1, h2, exprSrc, unaryOpToSource, parenIf, hnp,
+      String.append_assoc]
+    rw [show ("(-" : String) = "(" ++ "-" by decide, String.append_assoc]
+  · simp [svToSource, svToExpr, numToExpr, h]
+  · simp only [bothQuotes, Bool.and_eq_true, List.contains_iff_mem] at h
+    refine ⟨by simp only [svToSource]; exact stringToSource_both s h.1 h.2, ?_⟩
+    simp [svToExpr, strToExpr, bothQuotes, h.1, h.2]
+
+/-- EMITTED TEXT = PRINT OF THE SUBSTITUTED TREE, for scopes of bare literals bound to
+    identifier names: `expr_to_source_with_scope(e, sc)` is character for character
+    `expr_to_source(substExpr sc e)`.  This reduces "the emitted text parses back to …" to the
+    parse-back of printed trees (C07 / C10). -/
+theorem emit_is_substitution_partial (pb : String → Option Expr) (e : Expr) (sc : Scope)
+    (h : ScopeBare sc) : exprSrc sc e = exprSrc [] (substExpr pb sc e) := emit_expr pb e sc h
+
+/-- the unrestricted statement -/
+def emit_is_substitution_statement : Prop :=
+  ∀ (pb : String → Option Expr) (e : Expr) (sc : Scope), exprSrc sc e = exprSrc [] (substExpr pb sc e)
+
+/-- … is false: a captured negative number is printed `(-a)` by the emitter and `-a` by the
+    plain printer (harmless: both parse to the same tree; the side condition `ScopeBare` of the
+    partial theorem is exactly "no protective parentheses") -/
+theorem emit_is_substitution_statement_false : ¬ emit_is_substitution_statement := by
+  intro h
+  have := h (fun _ => none) (.ident "x") [("x", .num F64.negZero)]
+  have hn : F64.negZero.isNaN = false := by decide +kernel
+  have hs : F64.negZero.neg = true := by decide +kernel
+  have hnp := (atomHead_shape (.num F64.negZero.negate) rfl).1 .prefix_
+  simp only [exprSrc, substExpr, lookupAL, if_true, svToSource, svToExpr, numToExpr, hn, hs,
+    Bool.false_eq_true, if_false, unaryOpToSource, parenIf, hnp] at this
+  have h2 := congrArg (fun s => s.toList.head?) this
+  simp at h2
+
+/-- the text of an emitted function (`to_json`: `"(args) => " ++ body text`) is the print of
+    the lambda expression over the substituted body, when the body is not a
+    via / into / where chain (else the print has parentheses around the body that the emitted
+    text lacks: see `extendLambdaBody_graft`) -/
+theorem emitted_function_source_is_printed_lambda (pb : String → Option Expr) (args : List LArg)
+    (body : Expr) (sc : Scope) (h : ScopeBare sc) (hb : lambdaBodyNeedsParens body = false) :
+    lambdaSource args (exprSrc sc body) = exprSrc [] (.lambda args (substExpr pb sc body)) := by
+  have e0 : ∀ (a : List LArg), scopeMinusArgs [] a = [] := by
+    intro a; induction a with
+    | nil => rfl
+    | cons x xs ih => simpa [scopeMinusArgs, scopeRemove] using ih
+  have hp := lbnp_subst pb body sc h
+  simp only [lambdaSource, exprSrc]
+  rw [show List.foldl (fun s a => scopeRemove s a.name) [] args = scopeMinusArgs [] args from rfl,
+    e0, hp, hb, emit_expr pb body sc h]
+  rfl
+
+/-! ### (B) literals evaluate to the captured value -/
+
+/-- bit level: for every pattern with the sign bit — negative numbers, `-0.0`, `-inf` (and
+    negative NaNs) — the unary minus of the sign-cleared magnitude is the pattern itself, and
+    the operand printed after the `-` has no sign bit (so it prints without a minus) -/
+theorem negate_of_magnitude_is_identity (x : F64) (h : x.neg = true) :
+    x.negate.negate = x ∧ x.negate.neg = false :=
+  ⟨F64.negate_negate_of_neg x h, F64.negate_of_neg_not_neg x h⟩
+
+/-- LITERALS EVALUATE TO THE CAPTURED VALUE: for every function-free captured value `v`
+    (numbers of every kind, strings, booleans, null, nested lists and records, built-in
+    names), every state, depth and fuel ≥ `litFuel v` (a bound on the size of the literal):
+    the expression its text denotes evaluates to `v` and leaves the state alone.  NaN: the
+    literal is `0/0`, which evaluates to `ops.div 0 0` — `svToValueN q` is `v` with every NaN
+    replaced by `q`. -/
+theorem literal_evaluates_to_value (ops : NumOps) (pb : String → Option Expr) (v : SV)
+    (h : noLambda v = true) (f : Nat) (hf : litFuel v ≤ f) (d : Nat) (st : ES) :
+    eval ops f d (svToExpr pb v) st = (.ok (svToValueN (ops.div F64.zero F64.zero) v), st) :=
+  lit_eval ops pb v h f hf d st
+
+/-- … and for data as an evaluation produces it (no NaN, record keys distinct) that is the
+    value itself, tree for tree, records in their order -/
+theorem literal_evaluates_to_value_exact (ops : NumOps) (pb : String → Option Expr) (v : SV)
+    (h : isLit v = true) (f : Nat) (hf : litFuel v ≤ f) (d : Nat) (st : ES) :
+    eval ops f d (svToExpr pb v) st = (.ok (svToValue v), st) := by
+  rw [lit_eval ops pb v (isLit_noLambda v h) f hf d st, svToValueN_lit _ v h]
+
+/-- NaN: `(0/0)` evaluates to a NaN provided the division of the platform does (assumption on
+    `ops`, validated by the harness for the native operations: `0.0 / 0.0` is NaN) -/
+theorem nan_literal_evaluates_to_nan (ops : NumOps) (pb : String → Option Expr) (x : F64)
+    (hx : x.isNaN = true) (hops : (ops.div F64.zero F64.zero).isNaN = true) (f : Nat) (hf : 2 ≤ f)
+    (d : Nat) (st : ES) :
+    ∃ y, y.isNaN = true ∧ eval ops f d (svToExpr pb (.num x)) st = (.ok (.num y), st) := by
+  refine ⟨ops.div F64.zero F64.zero, hops, ?_⟩
+  rw [lit_eval ops pb (.num x) rfl f hf d st]
+  simp [svToValueN, hx]
+
+/-- negative numbers, `-0.0`, `-inf`: `-(magnitude)` evaluates to the number, bit for bit;
+    `+inf` (`1e999`) and every other number are their own literal -/
+theorem number_literal_evaluates_to_number (ops : NumOps) (pb : String → Option Expr) (x : F64)
+    (hx : x.isNaN = false) (f : Nat) (hf : 2 ≤ f) (d : Nat) (st : ES) :
+    eval ops f d (svToExpr pb (.num x)) st = (.ok (.num x), st) := by
+  rw [lit_eval ops pb (.num x) rfl f hf d st]
+  simp [svToValueN, hx]
+
+/-- strings with both quote kinds: the `+` chain of the pieces evaluates to the string -/
+theorem string_literal_evaluates_to_string (ops : NumOps) (s : String) (f : Nat)
+    (hf : 1 + (pieces s.toList).length ≤ f) (d : Nat) (st : ES) :
+    eval ops f d (strToExpr s) st = (.ok (.str s), st) :=
+  eval_strToExpr ops s f hf d st
+
+/-! ### (C) scope bookkeeping -/
+
+/-- `scopeRemove`: the removed name is gone, every other binding is kept -/
+theorem scopeRemove_lookup (sc : Scope) (n m : String) :
+    lookupAL m (scopeRemove sc n) = if m = n then none else lookupAL m sc :=
+  lookupAL_scopeRemove sc n m
+
+/-- inside a function the parameters are never inlined: the body is substituted with the
+    parameters removed from the scope, so an occurrence of a parameter stays an identifier -/
+theorem subst_respects_parameters (pb : String → Option Expr) (sc : Scope) (args : List LArg)
+    (body : Expr) (x : String) (hx : x ∈ args.map LArg.name) :
+    substExpr pb sc (.lambda args body) = .lambda args (substExpr pb (scopeMinusArgs sc args) body) ∧
+    lookupAL x (scopeMinusArgs sc args) = none ∧
+    substExpr pb (scopeMinusArgs sc args) (.ident x) = .ident x := by
+  have h : lookupAL x (scopeMinusArgs sc args) = none := by
+    rw [lookupAL_scopeMinusArgs]; simp [hx]
+  exact ⟨by simp only [substExpr], h, substExpr_ident_none pb _ x h⟩
+
+/-- … and so are the names assigned by the direct statements of a do-block, in everything
+    after the assignment: the statements that follow and the `return` expression -/
+theorem subst_respects_do_locals (pb : String → Option Expr) (sc : Scope) (stmts : List Item)
+    (ret : Item) (x : String) (hx : x ∈ boundAfterStmts [] stmts) :
+    substExpr pb sc (.doBlock stmts ret) =
+      .doBlock (substStmts pb sc stmts) (substItem pb (scopeAfterStmts sc stmts) ret) ∧
+    lookupAL x (scopeAfterStmts sc stmts) = none ∧
+    substExpr pb (scopeAfterStmts sc stmts) (.ident x) = .ident x := by
+  have h : lookupAL x (scopeAfterStmts sc stmts) = none := by
+    rw [lookupAL_scopeAfterStmts]; simp [hx]
+  exact ⟨by simp only [substExpr], h, substExpr_ident_none pb _ x h⟩
+
+/-- statement by statement: what follows an assignment `x = …` is substituted without `x` -/
+theorem subst_statement_by_statement (pb : String → Option Expr) (sc : Scope) (l : List String)
+    (x : String) (v : Expr) (t : Option String) (rest : List Item) :
+    substStmts pb sc (.mk l (.assign x v) t :: rest) =
+      .mk l (.assign x (substExpr pb sc v)) t :: substStmts pb (scopeRemove sc x) rest := by
+  simp only [substStmts, substItem, substExpr, scopeAfterStmt]
+
+/-- names that are not removed keep their captured value -/
+theorem subst_inlines_captured (pb : String → Option Expr) (sc : Scope) (x : String) (v : SV)
+    (h : lookupAL x sc = some v) : substExpr pb sc (.ident x) = svToExpr pb v := by
+  simp only [substExpr, h]
+
+/-! ### (D) the substitution lemma -/
+
+/-- THE SUBSTITUTION LEMMA, proved part.  Fragment `frag`: literals, identifiers, `#field`,
+    built-in names, lists, records (static, computed, shorthand and spread entries),
+    conditionals, index and field access, unary operators, factorial, spread, all binary
+    operators except `via` / `into` / `where`, and do-blocks whose direct statements are such
+    expressions or assignments of such expressions (any nesting).  NOT covered: calls and the
+    three calling operators, lambda expressions, `output`, assignments that are not direct
+    do-block statements.
+
+    `Rel q K N sc A B`: environment `A` binds every name of the scope `sc` to the value its
+    literal denotes (a function-free value whose literal needs at most `K` fuel; the name is
+    not `inf` / `infinity` / `constants`), `B` need not bind them at all; every OTHER name of
+    `N` (a set containing the names free in `e`) and `inputs` are resolved alike by `A` and `B`.
+
+    Then: whenever evaluating `e` in `A` gives an answer (value or error) with fuel `f`,
+    evaluating the substituted expression in `B` gives the same answer with fuel `f + K`. -/
+theorem subst_lemma_partial (ops : NumOps) (pb : String → Option Expr) (K f d : Nat) (e : Expr)
+    (sc : Scope) (N : String → Prop) (sA sB : ES) (he : frag e = true)
+    (hN : ∀ n, FreeIn n e → N n)
+    (hrel : Rel (ops.div F64.zero F64.zero) K N sc sA.env sB.env)
+    (hf : (eval ops f d e sA).1 ≠ .fuel) :
+    (eval ops (f + K) d (substExpr pb sc e) sB).1 = (eval ops f d e sA).1 :=
+  subst_eval ops pb K f d e sc N sA sB he hN hrel hf
+
+/-- … and neither evaluation changes its environment (the fragment writes only do-block
+    frames, which are dropped) -/
+theorem subst_lemma_partial_env (ops : NumOps) (pb : String → Option Expr) (K f d : Nat) (e : Expr)
+    (sc : Scope) (N : String → Prop) (sA sB : ES) (he : frag e = true)
+    (hN : ∀ n, FreeIn n e → N n)
+    (hrel : Rel (ops.div F64.zero F64.zero) K N sc sA.env sB.env)
+    (hf : (eval ops f d e sA).1 ≠ .fuel) :
+    (eval ops f d e sA).2.env = sA.env ∧ (eval ops (f + K) d (substExpr pb sc e) sB).2.env = sB.env := by
+  obtain ⟨h1, h2⟩ := (simStep ops pb K f).eval N d e sc sA sB he hN hrel
+  rcases h2 with h2 | h2
+  · exact absurd h2 hf
+  · exact ⟨h1, h2.2⟩
+
+/-- The full statement (NOT proved): every body without an assignment outside the direct
+    statements of do-blocks (`noNestedAssign`), calls and function expressions included;
+    because the closures the two evaluations create differ (one captures, the other has the
+    literals inlined) the conclusion is about data results and about failing alike.  Proving
+    it needs a logical relation on closures instead of equality of values. -/
+def subst_lemma_statement : Prop :=
+  ∀ (ops : NumOps) (pb : String → Option Expr) (K f d : Nat) (e : Expr) (sc : Scope)
+    (N : String → Prop) (sA sB : ES),
+    noNestedAssign e = true → (∀ n, FreeIn n e → N n) →
+    (∀ t, pb (exprSrc [] t) = some t) →
+    Rel (ops.div F64.zero F64.zero) K N sc sA.env sB.env →
+    sA.names = sB.names → sA.nextId = sB.nextId →
+    (∀ v, (eval ops f d e sA).1 = .ok v → isData v = true →
+      ∃ f', (eval ops f' d (substExpr pb sc e) sB).1 = .ok v) ∧
+    (∀ k, (eval ops f d e sA).1 = .err k →
+      ∃ f' k', (eval ops f' d (substExpr pb sc e) sB).1 = .err k')
+
+/-! ### (E) reload -/
+
+/-- `extend_lambda_body` undoes what the parser does to the text `(args) => <body>` when the
+    body is a via / into / where chain: whatever part of the left spine of binary operators
+    the lambda was pushed under (`graft`: all of it; `graftChain`: as far as
+    `lambdaBodyNeedsParens` says the body is exposed, which is what the parser builds), the
+    result is the function with the whole body -/
+theorem extendLambdaBody_graft (args : List LArg) (b : Expr) :
+    extendLambdaBody (graft args b) = .lambda args b ∧
+    extendLambdaBody (graftChain args b) = .lambda args b ∧
+    parseFunctionSource [graft args b] = some (args, exprToSource b) ∧
+    parseFunctionSource [graftChain args b] = some (args, exprToSource b) :=
+  ⟨Emit.extendLambdaBody_graft args b, extendLambdaBody_graftChain args b,
+   parseFunctionSource_graft args b [], parseFunctionSource_graftChain args b []⟩
+
+/-- STRUCTURE OF A RELOADED FUNCTION.  `from_value` of a function value is its parameter list
+    and the text `exprSrc sc body` (`sc` = `from_captured_value` of the captured scope);
+    `to_json` makes it the one-member object `{"__blots_function": "(args) => text"}`; that
+    text is never mistaken for a built-in name; if `parse_function_source` reads it as
+    `(args', body')` and the body text `body'` parses to `b`, the value loaded from the JSON is
+    a function with parameters `args'`, body `b` and an EMPTY captured scope. -/
+theorem reload_structure (pf : ParseFn) (pb : ParseBody) (id : Nat) (args : List LArg) (body : Expr)
+    (scope : Frame) (sc : Scope) (hsc : capturedRecToSV scope = some sc)
+    (args' : List LArg) (body' : String) (b : Expr)
+    (hpf : pf (lambdaSource args (exprSrc sc body)) = some (args', body')) (hpb : pb body' = some b) :
+    valueToSV (.lambda id args body scope) = some (.lambda args (exprSrc sc body)) ∧
+    toJson (.lambda args (exprSrc sc body)) =
+      .obj [("__blots_function", .str (lambdaSource args (exprSrc sc body)))] ∧
+    isBuiltinName (lambdaSource args (exprSrc sc body)) = false ∧
+    readJson pf pb (toJson (.lambda args (exprSrc sc body))) = .ok (.lambda 0 args' b []) := by
+  refine ⟨by simp [valueToSV, hsc], by simp [toJson], lambdaSource_not_builtin _ _, ?_⟩
+  simp [readJson, toJson, Json.norm, Json.normMembers, collectSorted, insertSorted, fromJson, fnObject,
+    lookupAL, lambdaSource_not_builtin, hpf, toValue, hpb]
+
+/-- RELOAD GIVES AN EQUIVALENT FUNCTION, proved part.  Original: `.lambda idA ps body scope`
+    in a program state `sA`.  Hypotheses:
+    * the body is in the fragment `frag` (see `subst_lemma_partial`);
+    * captured values are data as evaluation produces it (`isLit`: no NaN — for NaN see
+      `literal_evaluates_to_value` —, no function, distinct record keys) or built-ins, bound to
+      names that are not special identifiers, parameters or `inputs` (what `captureScope`
+      produces);
+    * CLOSED AFTER CAPTURE: every name free in the body is a parameter, captured, or resolved
+      alike by the two programs (built-ins) and not the display name of either function;
+    * INTERFACE TO TEXT (C07 / C10 parse-back, validated by the harness): the emitted text is
+      read by `parse_function_source` as the parameters `ps` and the print of `b`, and that
+      print parses to `b`, where `b = substExpr sc body` is the substituted body.
+    Then the JSON output loads as `.lambda 0 ps b []` and, for every argument tuple, depth and
+    caller, whenever the original call gives an answer (value or error, including arity and
+    depth errors) the reloaded one gives the same answer. -/
+theorem reload_equiv_partial (ops : NumOps) (pf : ParseFn) (pb : ParseBody) (K idA : Nat)
+    (ps : List LArg) (body : Expr) (scope : Frame) (sc : Scope) (sA sB : ES)
+    (hfrag : frag body = true)
+    (hsc : capturedRecToSV scope = some sc)
+    (hv : ∀ n sv, lookupAL n sc = some sv →
+      isLit sv = true ∧ litFuel sv ≤ K ∧ n ∉ Gen.specialIdents ∧ n ∉ ps.map LArg.name ∧ n ≠ "inputs")
+    (hfree : ∀ n, FreeIn n body → n ∉ ps.map LArg.name → lookupAL n sc = none →
+      envGet sA.env n = envGet sB.env n ∧ nameOf sA.names idA ≠ some n ∧ nameOf sB.names 0 ≠ some n)
+    (hin : envGet sA.env "inputs" = envGet sB.env "inputs" ∧
+      nameOf sA.names idA ≠ some "inputs" ∧ nameOf sB.names 0 ≠ some "inputs")
+    (hpf : pf (lambdaSource ps (exprSrc sc body)) = some (ps, exprSrc [] (substExpr pb sc body)))
+    (hpb : pb (exprSrc [] (substExpr pb sc body)) = some (substExpr pb sc body)) :
+    readJson pf pb (toJson (.lambda ps (exprSrc sc body))) = .ok (.lambda 0 ps (substExpr pb sc body) []) ∧
+    ∀ (thisA thisB : Value) (args : List Value) (depth f : Nat),
+      (callFn ops (f + 1) (.lambda idA ps body scope) thisA args depth sA).1 ≠ .fuel →
+      (callFn ops (f + K + 1) (.lambda 0 ps (substExpr pb sc body) []) thisB args depth sB).1 =
+        (callFn ops (f + 1) (.lambda idA ps body scope) thisA args depth sA).1 := by
+  refine ⟨(reload_structure pf pb idA ps body scope sc hsc ps _ _ hpf hpb).2.2.2, ?_⟩
+  intro thisA thisB args depth f hf
+  have himg := scopeImage_of_captured (ops.div F64.zero F64.zero) K ps sc scope hsc hv
+  exact reload_call ops pb K f idA 0 ps body scope sc thisA thisB args depth sA sB hfrag
+    (fun pfr hb => rel_of_closed _ K ps body sc scope idA 0 thisA thisB args pfr sA sB himg hfree hin hb) hf
+
+/-- The full statement (NOT proved): any body without nested assignment, captured values of
+    every kind; conclusion for data results and failures.  Missing: `subst_lemma_statement`. -/
+def reload_equiv_statement : Prop :=
+  ∀ (ops : NumOps) (pf : ParseFn) (pb : ParseBody) (idA : Nat) (ps : List LArg) (body : Expr)
+    (scope : Frame) (sc : Scope) (sA sB : ES),
+    noNestedAssign body = true →
+    capturedRecToSV scope = some sc →
+    (∀ n, FreeIn n body → n ∉ ps.map LArg.name → lookupAL n sc = none →
+      envGet sA.env n = envGet sB.env n ∧ nameOf sA.names idA ≠ some n ∧ nameOf sB.names 0 ≠ some n) →
+    (envGet sA.env "inputs" = envGet sB.env "inputs" ∧
+      nameOf sA.names idA ≠ some "inputs" ∧ nameOf sB.names 0 ≠ some "inputs") →
+    (∀ t, pb (exprSrc [] t) = some t) →
+    pf (lambdaSource ps (exprSrc sc body)) = some (ps, exprSrc [] (substExpr pb sc body)) →
+    ∀ (thisA thisB : Value) (args : List Value) (depth f : Nat),
+      (∀ v, (callFn ops f (.lambda idA ps body scope) thisA args depth sA).1 = .ok v → isData v = true →
+        ∃ f', (callFn ops f' (.lambda 0 ps (substExpr pb sc body) []) thisB args depth sB).1 = .ok v) ∧
+      (∀ k, (callFn ops f (.lambda idA ps body scope) thisA args depth sA).1 = .err k →
+        ∃ f' k', (callFn ops f' (.lambda 0 ps (substExpr pb sc body) []) thisB args depth sB).1 = .err k')
+
+/-- EMITTING A RELOADED FUNCTION AGAIN.  A reloaded function has an empty scope, so its
+    emitted text is the plain print of its body; if the parser reads that print back to the
+    body (parse-back), loading it again gives the very same function value: from the first
+    reload on, emit ∘ reload is the identity — for captured values of EVERY kind. -/
+theorem re_emit_fixed_point (pf : ParseFn) (pb : ParseBody) (ps : List LArg) (b : Expr)
+    (hpf : pf (lambdaSource ps (exprSrc [] b)) = some (ps, exprSrc [] b))
+    (hpb : pb (exprSrc [] b) = some b) :
+    valueToSV (.lambda 0 ps b []) = some (.lambda ps (exprSrc [] b)) ∧
+    readJson pf pb (toJson (.lambda ps (exprSrc [] b))) = .ok (.lambda 0 ps b []) := by
+  have h := reload_structure pf pb 0 ps b [] [] rfl ps _ b hpf hpb
+  exact ⟨h.1, h.2.2.2⟩
+
+/-- … and for scopes of bare literals the second-generation text is character for character
+    the first-generation text: `from_value (reloaded) = from_value (original)` -/
+theorem re_emit_same_text (pb : ParseBody) (idA : Nat) (ps : List LArg) (body : Expr) (scope : Frame)
+    (sc : Scope) (hsc : capturedRecToSV scope = some sc) (hbare : ScopeBare sc) :
+    valueToSV (.lambda 0 ps (substExpr pb sc body) []) = valueToSV (.lambda idA ps body scope) := by
+  simp only [valueToSV, capturedRecToSV, hsc, emit_expr pb body sc hbare]
+
+/-- OTHER CLOSURES as captured values: `from_captured_value` of a closure (own captured scope
+    `sc'` of bare literals) is written into the enclosing function's source as the
+    parenthesised print of the lambda expression over ITS substituted body — the body in
+    parentheses of its own when it is a via / into / where chain — and, given the parse-back
+    of that body text, the literal denotes that lambda expression -/
+theorem captured_closure_literal (pb : ParseBody) (id : Nat) (args : List LArg) (body : Expr)
+    (scope' : Frame) (sc' : Scope) (hsc : capturedRecToSV scope' = some sc') (hbare : ScopeBare sc')
+    (hpb : pb (parenIf (lambdaBodyNeedsParens body) (exprSrc sc' body)) = some (substExpr pb sc' body)) :
+    ∃ sv, capturedToSV (.lambda id args body scope') = some sv ∧
+      svToSource sv = "(" ++ exprSrc [] (.lambda args (substExpr pb sc' body)) ++ ")" ∧
+      svToExpr pb sv = .lambda args (substExpr pb sc' body) := by
+  refine ⟨.lambda args (parenIf (lambdaBodyNeedsParens body) (exprSrc sc' body)),
+    by simp [capturedToSV, hsc], ?_, by simp [svToExpr, hpb]⟩
+  have e0 : ∀ (a : List LArg), scopeMinusArgs [] a = [] := by
+    intro a; induction a with
+    | nil => rfl
+    | cons x xs ih => simpa [scopeMinusArgs, scopeRemove] using ih
+  simp only [svToSource, exprSrc]
+  rw [show List.foldl (fun s a => scopeRemove s a.name) [] args = scopeMinusArgs [] args from rfl,
+    e0, lbnp_subst pb body sc' hbare, emit_expr pb body sc' hbare]
+  simp only [String.append_assoc]
+  rw [show ("((" : String) = "(" ++ "(" by decide, String.append_assoc]
+
+/-! ### a genuine defect: assignments that are not direct do-block statements -/
+
+section defect
+set_option linter.unusedSimpArgs false
+private abbrev bodyNA : Expr := .list [Item.plain (.assign "x" (.num int1)), Item.plain (.ident "x")]
+private abbrev bodyNA' : Expr := .list [Item.plain (.assign "x" (.num int1)), Item.plain (.num int3)]
+private abbrev st0 : ES := { env := [[]], nextId := 8, names := [] }
+
+/-- `x = 3; f = () => [x = 1, x]` (the model of the witness confirmed on the real binary with
+    `x = 5`): inside a call an assignment only checks the innermost frame, so `x = 1` binds `x`
+    in the call frame and the following `x` reads 1: `f() = [1, 1]`.  The emitter removes a
+    name from the inlining scope only for parameters and DIRECT do-block assignments, so it
+    emits `() => [x = 1, 3]`, and the reloaded function returns `[1, 3]`.  The function is
+    closed after capture, its captured value is a plain number, the body has no call:
+    the hypothesis `frag` / `noNestedAssign` of the theorems above cannot be dropped, and
+    property C05 as stated is violated by the code. -/
+theorem nested_assignment_breaks_reload (pb : ParseBody) :
+    capturedRecToSV [("x", .num int3)] = some [("x", .num int3)] ∧
+    substExpr pb [("x", .num int3)] bodyNA = bodyNA' ∧
+    noNestedAssign bodyNA = false ∧
+    (callFn intOps 10 (.lambda 7 [] bodyNA [("x", .num int3)]) (.lambda 7 [] bodyNA [("x", .num int3)])
+        [] 0 st0).1 = .ok (.list [.num int1, .num int1]) ∧
+    (callFn intOps 10 (.lambda 0 [] bodyNA' []) (.lambda 0 [] bodyNA' []) [] 0 st0).1 =
+      .ok (.list [.num int1, .num int3]) := by
+  refine ⟨rfl, ?_, rfl, ?_, ?_⟩
+  · simp +decide [substExpr, substItems, substItem, Item.plain, lookupAL, svToExpr, numToExpr]
+  · simp +decide [callFn, eval, evalItems, checkArity, lambdaArity, bindParams, bindParams.go, envGet,
+      lookupAL, insertAL, Item.plain, alreadyDefined, isBuiltinIdent, setNameIfLambda, envInsert,
+      flattenSpreads, nameOf, MAX_DEPTH, createdSince]
+  · simp +decide [callFn, eval, evalItems, checkArity, lambdaArity, bindParams, bindParams.go, envGet,
+      lookupAL, insertAL, Item.plain, alreadyDefined, isBuiltinIdent, setNameIfLambda, envInsert,
+      flattenSpreads, nameOf, MAX_DEPTH, createdSince]
+end defect
+
+/-! ### examples: the hypotheses are satisfiable by non-trivial values -/
+
+section examples
+set_option linter.unusedSimpArgs false
+private abbrev negThree : F64 := F64.ofNatBits 0xC008000000000000
+private abbrev pb0 : ParseBody := fun _ => none
+
+/-- (A) a bare literal: nested list / record with a quoted key, one-quote strings, +inf -/
+private abbrev bareV : SV :=
+  .record [("a b", .list [.str "it's", .bool true, .num F64.inf]), ("k", .null), ("f", .builtin "sum")]
+example : bare bareV = true := by decide +kernel
+/-- not bare: a negative number, NaN, a two-quote string, a two-quote key -/
+example : bare (.num negThree) = false ∧ bare (.num F64.nan) = false ∧ bare (.str "a'\"") = false ∧
+    bare (.record [("a'\"", .null)]) = false := by decide +kernel
+example : negThree.isNaN = false ∧ negThree.neg = true ∧ F64.negZero.neg = true ∧
+    F64.negInf.neg = true ∧ F64.nan.isNaN = true ∧ bothQuotes "it's \"x\"" = true := by decide +kernel
+/-- a scope of bare literals bound to identifier names -/
+private abbrev scBare : Scope := [("lim", .num int3), ("tag", .str "it's"), ("cfg", bareV)]
+example : ScopeBare scBare := by
+  intro kv h
+  simp only [List.mem_cons, List.not_mem_nil, or_false] at h
+  rcases h with rfl | rfl | rfl <;> exact ⟨by decide +kernel, by decide +kernel⟩
+/-- `x => x > lim && cfg.k == tag` -/
+example : exprSrc scBare (.lambda [.req "x"] (.bin .and (.bin .gt (.ident "x") (.ident "lim"))
+      (.bin .eq (.dot (.ident "cfg") "k") (.ident "tag")))) =
+    exprSrc [] (substExpr pb0 scBare (.lambda [.req "x"] (.bin .and (.bin .gt (.ident "x") (.ident "lim"))
+      (.bin .eq (.dot (.ident "cfg") "k") (.ident "tag"))))) :=
+  emit_is_substitution_partial pb0 _ scBare (by
+    intro kv h
+    simp only [List.mem_cons, List.not_mem_nil, or_false] at h
+    rcases h with rfl | rfl | rfl <;> exact ⟨by decide +kernel, by decide +kernel⟩)
+
+/-- (B) a captured value of every data kind: negative, -0.0, -inf, +inf, NaN, both quote
+    kinds (value and key), nesting, a built-in -/
+private abbrev dataV : SV :=
+  .list [.num negThree, .num F64.negZero, .num F64.negInf, .num F64.inf, .num F64.nan,
+    .str "it's \"x\"", .record [("a'\"", .list [.null]), ("k", .bool false)], .builtin "sum"]
+example : noLambda dataV = true := by decide
+example : litFuel dataV ≤ 40 := by decide
+example (st : ES) : eval intOps 40 0 (svToExpr pb0 dataV) st =
+    (.ok (svToValueN (intOps.div F64.zero F64.zero) dataV), st) :=
+  literal_evaluates_to_value intOps pb0 dataV (by decide) 40 (by decide) 0 st
+/-- data as evaluation produces it (no NaN, distinct keys) evaluates to itself -/
+private abbrev litV : SV :=
+  .record [("n", .num negThree), ("s", .str "it's \"x\""), ("a'\"", .list [.num F64.negInf, .null])]
+example : isLit litV = true := by decide +kernel
+example (st : ES) : eval intOps 40 3 (svToExpr pb0 litV) st = (.ok (svToValue litV), st) :=
+  literal_evaluates_to_value_exact intOps pb0 litV (by decide +kernel) 40 (by decide) 3 st
+example : svToValue litV = .record [("n", .num negThree), ("s", .str "it's \"x\""),
+    ("a'\"", .list [.num F64.negInf, .null])] := rfl
+/-- the toy division gives NaN for 0/0 (for the native operations the harness checks it) -/
+example : (intOps.div F64.zero F64.zero).isNaN = true := by decide +kernel
+
+/-- (C) the old defect `y => do { z = x; x = y; return x + z }` with `x ↦ 3` captured:
+    `z = x` inlines, `x = y` stops the inlining, the `return` keeps `x` -/
+example : substExpr pb0 [("x", .num int3)]
+      (.lambda [.req "y"] (.doBlock
+        [.mk [] (.assign "z" (.ident "x")) none, .mk [] (.assign "x" (.ident "y")) none]
+        (.mk [] (.bin .add (.ident "x") (.ident "z")) none))) =
+    .lambda [.req "y"] (.doBlock
+        [.mk [] (.assign "z" (.num int3)) none, .mk [] (.assign "x" (.ident "y")) none]
+        (.mk [] (.bin .add (.ident "x") (.ident "z")) none)) := by
+  simp +decide [substExpr, substStmts, substItem, scopeMinusArgs, scopeRemove, scopeAfterStmt,
+    scopeAfterStmts, lookupAL, svToExpr, numToExpr, LArg.name]
+example : "x" ∈ boundAfterStmts []
+    [.mk [] (.assign "z" (.ident "x")) none, .mk [] (.assign "x" (.ident "y")) none] := by decide
+example : "y" ∈ [LArg.req "y", .opt "b"].map LArg.name := by decide
+
+/-- (D) the fragment: `do { z = x + 1; x = y; return [x, z, {x}, if y > 0 then -x else l[0]] }` -/
+private abbrev fragBody : Expr :=
+  .doBlock [.mk [] (.assign "z" (.bin .add (.ident "x") (.num int1))) none,
+            .mk [] (.assign "x" (.ident "y")) none]
+    (.mk [] (.list [Item.plain (.ident "x"), Item.plain (.ident "z"),
+        Item.plain (.record [.mk [] (.short "x") .null none]),
+        Item.plain (.cond (.bin .gt (.ident "y") (.num int0)) (.un .negate (.ident "x"))
+          (.access (.ident "l") (.num int0)))]) none)
+example : frag fragBody = true := by decide
+example : noNestedAssign fragBody = true := by decide
+/-- the two environments of the lemma: `A` has the captured `x` below the parameter frame -/
+example : Rel (intOps.div F64.zero F64.zero) 2 (fun n => n = "x" ∨ n = "y") [("x", .num int3)]
+    [[("y", .num int1)], [("x", .num int3)]] [[("y", .num int1)]] := by
+  refine ⟨fun n sv h => ?_, fun n hN h => ?_, ⟨by decide, rfl⟩⟩
+  · by_cases hn : "x" = n
+    · subst hn
+      simp only [lookupAL, if_true, Option.some.injEq] at h
+      subst h
+      exact ⟨rfl, by decide, by simp +decide [envGet, lookupAL, svToValueN], by decide⟩
+    · simp [lookupAL, hn] at h
+  · rcases hN with rfl | rfl
+    · simp [lookupAL] at h
+    · rfl
+
+/-- (E) a closed function `y => [x + y, tag]` over data captures, reloaded; the text
+    interface instantiated by the (constant) answers the parser gives for this text -/
+private abbrev eBody : Expr := .list [Item.plain (.bin .add (.ident "x") (.ident "y")), Item.plain (.ident "tag")]
+private abbrev eScope : Frame := [("x", .num negThree), ("tag", .str "it's \"x\"")]
+private abbrev eSc : Scope := [("x", .num negThree), ("tag", .str "it's \"x\"")]
+private abbrev eB : Expr := substExpr pb0 eSc eBody
+private abbrev pbE : ParseBody := fun _ => some eB
+private abbrev pfE : ParseFn := fun _ => some ([.req "y"], exprSrc [] eB)
+private abbrev stE : ES := { env := [[]], nextId := 8, names := [] }
+example : substExpr pbE eSc eBody = eB := by
+  simp +decide [substExpr, substItems, substItem, Item.plain, lookupAL, svToExpr]
+example : capturedRecToSV eScope = some eSc := rfl
+example : frag eBody = true := by decide
+example (thisA thisB : Value) (args : List Value) (depth f : Nat)
+    (h : (callFn intOps (f + 1) (.lambda 7 [.req "y"] eBody eScope) thisA args depth stE).1 ≠ .fuel) :
+    (callFn intOps (f + 20 + 1) (.lambda 0 [.req "y"] (substExpr pbE eSc eBody) []) thisB args depth stE).1 =
+      (callFn intOps (f + 1) (.lambda 7 [.req "y"] eBody eScope) thisA args depth stE).1 := by
+  have hb : substExpr pbE eSc eBody = eB := by
+    simp +decide [substExpr, substItems, substItem, Item.plain, lookupAL, svToExpr]
+  refine (reload_equiv_partial intOps pfE pbE 20 7 [.req "y"] eBody eScope eSc stE stE (by decide) rfl
+    ?_ ?_ ⟨rfl, by simp [nameOf], by simp [nameOf]⟩ (by rw [hb]) (by rw [hb])).2 thisA thisB args depth f h
+  · intro n sv hl
+    by_cases h1 : "x" = n
+    · subst h1
+      simp only [lookupAL, if_true, Option.some.injEq] at hl
+      subst hl
+      exact ⟨by decide +kernel, by decide, by decide, by decide, by decide⟩
+    · by_cases h2 : "tag" = n
+      · subst h2
+        simp only [lookupAL, h1, if_false, if_true, Option.some.injEq] at hl
+        subst hl
+        exact ⟨by decide +kernel, by decide, by decide, by decide, by decide⟩
+      · simp [lookupAL, h1, h2] at hl
+  · intro n _ _ _
+    exact ⟨rfl, by simp [nameOf], by simp [nameOf]⟩
+/-- re-emission: the reloaded function's text read back -/
+example : readJson pfE pbE (toJson (.lambda [.req "y"] (exprSrc [] eB))) = .ok (.lambda 0 [.req "y"] eB []) :=
+  (re_emit_fixed_point pfE pbE [.req "y"] eB rfl rfl).2
+/-- a captured closure `t => t via g` (own scope empty): its literal -/
+example : ∃ sv, capturedToSV (.lambda 3 [.req "t"] (.bin .via (.ident "t") (.ident "g")) []) = some sv ∧
+    svToSource sv = "(" ++ exprSrc [] (.lambda [.req "t"] (.bin .via (.ident "t") (.ident "g"))) ++ ")" ∧
+    svToExpr (fun _ => some (.bin .via (.ident "t") (.ident "g"))) sv =
+      .lambda [.req "t"] (.bin .via (.ident "t") (.ident "g")) :=
+  captured_closure_literal (fun _ => some (.bin .via (.ident "t") (.ident "g"))) 3 [.req "t"]
+    (.bin .via (.ident "t") (.ident "g")) [] [] rfl ScopeBare.nil rfl
+/-- `(x) => a via f` as the parser builds it, and `extend_lambda_body` of it -/
+example : graftChain [.req "x"] (.bin .via (.ident "a") (.ident "f")) =
+    .bin .via (.lambda [.req "x"] (.ident "a")) (.ident "f") := by
+  simp +decide [graftChain, lambdaBodyNeedsParens]
+example : extendLambdaBody (.bin .via (.lambda [.req "x"] (.ident "a")) (.ident "f")) =
+    .lambda [.req "x"] (.bin .via (.ident "a") (.ident "f")) := rfl
+end examples
+
 end Blots.C05
